@@ -757,17 +757,15 @@ where
             None
         };
 
-        //TODO: this should be checking against the reference picture to see if we need RPRP
-        let reference_picture_resampling = if options
-            .contains(PictureOption::REFERENCE_PICTURE_RESAMPLING)
-            || previous_picture
-                .map(|p| p.format != format)
-                .unwrap_or(false)
-        {
-            decode_rprp(reader)?
-        } else {
-            None
-        };
+        // RPRP is only transmitted when the reference picture resampling bit of
+        // MPPTYPE is set (H.263 5.1.18). A change of picture size without that
+        // bit invokes resampling implicitly and adds nothing to the header.
+        let reference_picture_resampling =
+            if options.contains(PictureOption::REFERENCE_PICTURE_RESAMPLING) {
+                decode_rprp(reader)?
+            } else {
+                None
+            };
 
         let quantizer: u8 = reader.read_bits(5)?;
 
